@@ -49,7 +49,7 @@ def make_content(S, P=2, C=1, sub=2, F=2, labels='equal', analog='full', extras=
     dsc = lambda t: S.text(t, desc_len, 1) if symbolic_meta else []
     point = Group(gid['POINT'], 'POINT', dsc('gdesc'), False, [
         Param('USED', 2, [], [P], dsc('pdesc'), True),
-        Param('SCALE', 4, [], [F32(-1.0)], [], False),
+        Param('SCALE', 4, [], [S.f32('pscale') if symbolic_meta else F32(-1.0)], [], False),
         Param('RATE', 4, [], [F32(100.0)], [], True),
         Param('DATA_START', 2, [], [0], [], True),
         Param('FRAMES', 2, [], [F], [], False),
